@@ -20,6 +20,7 @@ func init() {
 	zzsv.Register("ZZ_C10_FaultingScripts", ZZ_C10_FaultingScripts)
 	zzsv.Register("ZZ_C10_OddObjects", ZZ_C10_OddObjects)
 	zzsv.Register("ZZ_C10_ScriptVariables", ZZ_C10_ScriptVariables)
+	zzsv.Register("ZZ_C10_ScriptTexts", ZZ_C10_ScriptTexts)
 }
 
 // ZZ_C10_FaultingScripts: the 31 run-time fault scripts of C08 (division and
@@ -74,4 +75,32 @@ func ZZ_C10_ScriptVariables(sv *zzsv.T) {
 		sv.Observe("runs", err1 != nil, err2 != nil)
 	})
 	sv.Assert("C10.scriptvars.returns", ok)
+}
+
+// ZZ_C10_ScriptTexts: the script text is data too: texts that look like
+// file names (with a dozen usual extensions), URLs or shell commands are
+// only ever parsed as scripts.
+func ZZ_C10_ScriptTexts(sv *zzsv.T) {
+	sv.EnvOther("/etc/hostname")
+	texts := []string{"/etc/hostname", "notes.script", "@/etc/passwd", "file:///etc/hostname", "http://127.0.0.1:1/x", "|ls", "`ls`", "$(ls)", "< /etc/hostname", "include \"/etc/hostname\";", "EXT"}
+	txt := texts[sv.Choice("text", len(texts))]
+	if txt == "EXT" {
+		// (a symbolic extension would have to go through the lexer letter by
+		// letter: 27^8 spellings; the usual extensions stand in for it)
+		exts := []string{".script", ".txt", ".json", ".ef", ".filter", ".evalfilter", ".conf", ".js", ".lua", ".sh", ".in", ".src"}
+		txt = "/etc/hostname" + exts[sv.Choice("ext", len(exts))]
+	}
+	sv.Note("script", txt)
+	ok := zzNoPanic(func() {
+		e := New(txt)
+		if e.Prepare() != nil {
+			return
+		}
+		sv.StdoutStart()
+		_ = e.Dump()
+		_, _ = e.Execute(nil)
+		_, _ = e.Run(map[string]interface{}{"hostname": "h", "etc": 1})
+		sv.StdoutEnd()
+	})
+	sv.Assert("C10.scripttexts.returns", ok)
 }
